@@ -22,10 +22,21 @@ Proof.
   cbn [all_bytes forallb] in H. apply andb_prop in H. destruct H as [_ Hr]. apply IH. exact Hr.
 Qed.
 
-Lemma all_bytes_rest_at bs pos : all_bytes bs = true -> all_bytes (rest_at bs pos) = true.
+Lemma all_bytes_skipz : forall (l : list Z) pos, all_bytes l = true -> all_bytes (skipz l pos) = true.
 Proof.
-  intros H. unfold rest_at. destruct (zlen bs <=? pos); [reflexivity|]. apply all_bytes_skipn. exact H.
+  induction l as [|b r IH]; intros pos H; cbn [skipz]; destruct (pos <=? 0); auto.
+  cbn [all_bytes forallb] in H. apply andb_prop in H. destruct H as [_ Hr]. apply IH. exact Hr.
 Qed.
+
+Lemma all_bytes_takez : forall (l : list Z) n, all_bytes l = true -> all_bytes (takez l n) = true.
+Proof.
+  induction l as [|b r IH]; intros n H; cbn [takez]; destruct (n <=? 0); auto.
+  cbn [all_bytes forallb] in *. apply andb_prop in H. destruct H as [Hb Hr].
+  rewrite Hb. cbn. apply IH. exact Hr.
+Qed.
+
+Lemma all_bytes_rest_at bs pos : all_bytes bs = true -> all_bytes (rest_at bs pos) = true.
+Proof. apply all_bytes_skipz. Qed.
 
 Lemma all_bytes_app_r (a t : list Z) : all_bytes (a ++ t) = true -> all_bytes t = true.
 Proof. rewrite all_bytes_app. intros H. apply andb_prop in H. tauto. Qed.
@@ -200,9 +211,13 @@ Proof.
   destruct (Z.ltb_spec MAX_SSIZE pos).
   - cbn. exact I.
   - unfold decode_layout.
-    destruct (decode_fields L [] (rest_at bs pos)) as [[r t]|] eqn:Ed; cbn [fst]; [|exact I].
+    set (win := match layout_size L with
+                | Some n => read_n (rest_at bs pos) (Z.of_nat n) | None => rest_at bs pos end).
+    assert (Hw : all_bytes win = true).
+    { unfold win. destruct (layout_size L); [apply all_bytes_takez|]; apply all_bytes_rest_at; exact Hb. }
+    destruct (decode_fields L [] win) as [[r t]|] eqn:Ed; cbn [fst]; [|exact I].
     destruct (strict_ok binds r); cbn [fst]; [|exact I].
-    eapply decode_fields_nonneg; eauto. apply all_bytes_rest_at. exact Hb.
+    exact (decode_fields_nonneg L [] _ r t HL Hw Ed).
 Qed.
 
 (* ------------------------------------------------------------------ the layouts the
@@ -279,7 +294,7 @@ Proof.
   eapply post_bind; [apply post_identify_file|]. intros cl _.
   eapply post_bind; [apply post_struct_parse_at; [apply unsigned_Ehdr|exact Hb|lia]|].
   intros hdr Hh.
-  set (x := mkctx bs false (fst cl) (snd cl) hdr).
+  set (x := mkctx bs (blen bs) false (fst cl) (snd cl) hdr).
   assert (Hx : ctx_good x) by (repeat split; assumption).
   eapply post_bind; [apply post_raw_read; unfold MAX_SSIZE; lia|]. intros raw _.
   eapply post_bind; [apply post_get_shstrndx; exact Hx|]. intros n Hn.
